@@ -354,7 +354,7 @@ def extra_canonical(sym, perm, dumps):
     sym.check("sorted-keys-indent-4", canonical_json(sym, texts[0]))
 
 
-def treeinfo_canonical(sym, vperm, iperm, cperm, dumps):
+def treeinfo_canonical(sym, vperm, iperm, cperm, dumps, name_set=0):
     """variants, image tables, platforms and checksums added in any order; sections and options come out sorted"""
     import configparser
     import productmd.treeinfo as T
@@ -364,8 +364,9 @@ def treeinfo_canonical(sym, vperm, iperm, cperm, dumps):
     imgs = [sym.str("img%d" % i, 2, minlen=1, alphabet=[(97, 122)]) for i in range(3)]
     sums = [sym.str("sum%d" % i, 2, minlen=1, alphabet="hexlower") for i in range(3)]
     vspec = [("Server", "Server", None, "variant"), ("Client", "Client", None, "variant"), ("HA", "Server-HA", "Server", "addon")]
-    ispec = [("x86_64", "boot.iso"), ("x86_64", "Kernel"), ("xen", "kernel")]
-    cspec = ["images/boot.iso", "Images/efiboot.img", "LiveOS/squashfs.img"]
+    # names whose plain string order differs from "natural" orders: digit runs of different width, zero padding, upper/lower case
+    ispec = [[("x86_64", "boot.iso"), ("x86_64", "Kernel"), ("xen", "kernel")], [("x86_64", "initrd7"), ("x86_64", "initrd07"), ("x86_64", "initrd10")]][name_set]
+    cspec = [["images/boot.iso", "Images/efiboot.img", "LiveOS/squashfs.img"], ["images/disc2.iso", "images/disc10.iso", "images/disc02.iso"]][name_set]
 
     def build(vo, io_, co, platforms):
         ti = T.TreeInfo()
@@ -435,6 +436,7 @@ def jobs(tier, seed):
             out.append({"harness": "extra_canonical", "params": {"perm": p, "dumps": 3}})
     for pi in (range(6) if big else [(seed) % 6, (seed + 3) % 6]):
         out.append({"harness": "treeinfo_canonical", "params": {"vperm": PERMS3[pi], "iperm": PERMS3[(pi + 2) % 6], "cperm": PERMS3[(pi + 4) % 6], "dumps": 2}})
+        out.append({"harness": "treeinfo_canonical", "params": {"vperm": PERMS3[pi], "iperm": PERMS3[(pi + 1) % 6], "cperm": PERMS3[(pi + 3) % 6], "dumps": 2, "name_set": 1}})
     for primed_by in ("dump", "load"):
         for how in ("in-place", "assign"):
             out.append({"harness": "composeinfo_edited", "params": {"primed_by": primed_by, "how": how}})
